@@ -180,7 +180,8 @@ class VTransport(object):
 class Conn(object):
     __slots__ = ('idx', 'addr', 'proto', 'transport', 'phase', 'close_req', 'lost', 'loss_reason', 'pending_loss',
                  'level', 'clean', 'keepalive', 'window', 'timeout', 'connect_req', 'nwrites', 'lost_step',
-                 'connack_step', 'connect_step', 'inbuf_pkts', 'disc_written', 'close_step', 'n_connects')
+                 'connack_step', 'connect_step', 'inbuf_pkts', 'disc_written', 'close_step', 'n_connects',
+                 'connect_time', 'connack_time', 'lost_time')
 
     def __init__(self, idx, addr):
         self.idx, self.addr = idx, addr
@@ -202,6 +203,7 @@ class Conn(object):
         self.connect_step = None
         self.disc_written = False
         self.n_connects = 0
+        self.connect_time = self.connack_time = self.lost_time = None
 
     @property
     def open(self):
@@ -254,6 +256,19 @@ def _valcanon(v):
     return type(v).__name__
 
 
+class ObsLog(list):
+    """The observation log; remembers the virtual time of every entry in the parallel list .t"""
+
+    def __init__(self, clock):
+        list.__init__(self)
+        self.clock = clock
+        self.t = []
+
+    def append(self, x):
+        list.append(self, x)
+        self.t.append(self.clock.rightNow)
+
+
 class World(object):
 
     def __init__(self, cfg):
@@ -277,7 +292,7 @@ class World(object):
         self.cur = [None] * self.naddr    # current connection index per address
         self.reqs = []
         self.calls = []
-        self.obs = []                 # THE observation log (ordered, written at event time)
+        self.obs = ObsLog(self.clock)  # THE observation log (ordered, written at event time)
         self.hist = []
         self.step = 0
         self.mark = 0
@@ -393,6 +408,7 @@ class World(object):
             return
         conn.lost = True
         conn.lost_step = self.step
+        conn.lost_time = self.clock.rightNow
         conn.loss_reason = reason
         conn.pending_loss = None
         conn.transport.connected = False
@@ -507,6 +523,7 @@ class World(object):
             c.connect_req = r.idx
             c.clean, c.keepalive, c.level = bool(clean), ka, ver if ver in (3, 4) else 4
             c.connect_step = self.step
+            c.connect_time = self.clock.rightNow
 
     def ev_reconn2(self, a, clean=True, ka=0, ver=4):
         """connect() called again on a protocol object that already went through a handshake."""
@@ -595,6 +612,7 @@ class World(object):
         if was == 'connecting':
             c.phase = 'connected' if rcode == 0 else 'refused'
             c.connack_step = self.step
+            c.connack_time = self.clock.rightNow
         self.deliver(c, rc.enc_connack(sp, rcode))
 
     def target_id(self, a, tgt):
